@@ -16,12 +16,20 @@
                               invariant of scanner and emitters; `C04_parseLiteral_total`);
     * `C04_walker_prefix`, `C04_walker_negative_length`, `C04_walker_frag_invariant`;
     * `C04_tagtype_agrees`  — `TagType()` = the tag the emitter itself writes for the value;
-    * `C04_roundtrip_scalar`, `C04_roundtrip_array` (both directions), `C04_roundtrip_compound` (text → binary,
-      generalised statement closed under compounds to any depth).
+    * `C04_roundtrip`       — binary → text → binary for EVERY well-formed tree (all twelve tags, lists and
+                              compounds to any depth within the nesting limit), up to the element type of empty
+                              lists; with its halves `C04_roundtrip_text` (`MarshalNBT (wtext t) = encPayload (canon t)`),
+                              `C04_roundtrip_walker` (`UnmarshalNBT (encPayload t) = wtext t`), the in-context form
+                              `C04_roundtrip_in_context`, and the per-production rules `C04_roundtrip_scalar`,
+                              `C04_roundtrip_array`, `C04_roundtrip_compound`;
+    * `C04_tagtype_spec`    — `TagType (wtext t) = t.tag`;
+    * `C04_writer_tokens`   — the independent grammar reader reads `wtext t` as `canon t` (per production:
+                              `_scalar`, `_array`, `_list`, `_compound`); `C04_parse_eq_spec_writer`: reader, parser
+                              and `TagType` agree on every text the writer prints.
 
   What is left OPEN (statements at the end, in comments) and is TESTED instead by the three-way comparison
-  implementation = model = independent grammar reader (`Driver/C04.lean`): the round trip through lists and the
-  assembled statement over trees, `C04_writer_tokens`, `C04_parse_sound`, `C04_parse_eq_spec`.
+  implementation = model = independent grammar reader (`Driver/C04.lean`): `C04_parse_sound` and `C04_parse_eq_spec`
+  for ARBITRARY text (not only the writer's).
 -/
 import GoMC.Lemmas.SNBTFuel
 import GoMC.Lemmas.SNBTWalker
@@ -29,6 +37,9 @@ import GoMC.Lemmas.SNBTTag
 import GoMC.Lemmas.SNBTRoundScalar
 import GoMC.Lemmas.SNBTRoundArr
 import GoMC.Lemmas.SNBTRoundComp
+import GoMC.Lemmas.SNBTRoundTree
+import GoMC.Lemmas.SNBTTagSpec
+import GoMC.Lemmas.SNBTSpecTree
 import GoMC.Spec.SNBT
 import GoMC.Gen.SNBT
 namespace GoMC.Props.C04
@@ -341,27 +352,127 @@ example (fo : FloatOracle) (fm : FmtOracle) :
     · exact h1
     · exact h2)).mono (Nat.le_refl _) (by decide)
 
+/-- `C04_roundtrip_text` (text → binary, the whole tree induction of DESIGN G.3): for EVERY well-formed NBT tree `t`
+— all twelve tags, nested lists and compounds to any depth within the scanner's nesting limit, empty strings and
+names, number-like and quote-needing strings, extreme integers, typed arrays — whose floats satisfy the `strconv`
+hypotheses (`FloatHypT`: true for finite floats), `MarshalNBT` of the text `wtext t` that the writer prints for `t`
+is exactly the payload of `t`, with the element type of EMPTY lists normalised (`Spec.SNBT.canon`: the text `[]`
+cannot carry it). -/
+theorem C04_roundtrip_text (fo : FloatOracle) (fm : FmtOracle) (t : Spec.NBT) (hwf : t.WF)
+    (hf : FloatHypT fo fm t) (hd : ndepth t ≤ maxNestingDepth + 1) :
+    marshal fo (wtext fm t) = .ok (Spec.encPayload (Spec.SNBT.canon t)) :=
+  marshal_wtext fo fm t hwf hf hd
+
+/-- the same in ANY context: every node of a well-formed tree is a value in the sense of `ValSpec` -/
+theorem C04_roundtrip_in_context (fo : FloatOracle) (fm : FmtOracle) (t : Spec.NBT) (hwf : t.WF)
+    (hf : FloatHypT fo fm t) :
+    ValSpec fo (wtext fm t) t.tag (Spec.encPayload (Spec.SNBT.canon t)) (ndepth t) (2 * (wtext fm t).length + 1) :=
+  valSpec_of_Qt fo fm t (Q_tree fo fm t hwf hf)
+
+/-- `C04_roundtrip_walker` (binary → text): for every well-formed tree whose strings and names are shorter than 2^15
+bytes (`S15`; Go's `readString` takes the length as a signed int16) `UnmarshalNBT` on a source holding the payload of
+`t` (followed by anything) prints exactly `wtext t` and consumes exactly the payload -/
+theorem C04_roundtrip_walker (fm : FmtOracle) (t : Spec.NBT) (hwf : t.WF) (h15 : S15 t) (s : Stream) (rest : Bytes)
+    (hs : s.flat = Spec.encPayload t ++ rest) :
+    ∃ s', unmarshalNBT fm t.tag s = (Res.ok (wtext fm t), s') ∧ s'.flat = rest :=
+  unmarshal_wtext fm t hwf h15 s rest hs
+
+/-- **`C04_roundtrip`** — binary → text → binary, for EVERY well-formed NBT value: converting the document to SNBT
+text (`UnmarshalNBT` / `RawMessage.String`) and parsing that text back (`MarshalNBT`) yields the identical payload
+— same tag types, integers and strings exact, finite floats exact, typed arrays and nested lists and compounds to
+any depth within the nesting limit, empty strings and names, number-like and quote-needing strings — up to the
+element type of EMPTY lists, which SNBT text cannot express (`Spec.SNBT.canon`).  Hypotheses: `WF` (the format's own
+length limits, homogeneous lists), strings and names < 2^15 bytes, the `strconv` facts for the floats that occur
+(true for finite floats), nesting depth ≤ 10001. -/
+theorem C04_roundtrip (fo : FloatOracle) (fm : FmtOracle) (t : Spec.NBT) (hwf : t.WF) (h15 : S15 t)
+    (hf : FloatHypT fo fm t) (hd : ndepth t ≤ maxNestingDepth + 1) :
+    ∃ text s', unmarshalNBT fm t.tag (Stream.ofBytes (Spec.encPayload t)) = (Res.ok text, s') ∧ s'.flat = [] ∧
+      marshal fo text = .ok (Spec.encPayload (Spec.SNBT.canon t)) := by
+  obtain ⟨s', h1, h2⟩ := unmarshal_wtext fm t hwf h15 (Stream.ofBytes (Spec.encPayload t)) [] (by simp)
+  exact ⟨wtext fm t, s', h1, h2, marshal_wtext fo fm t hwf hf hd⟩
+
+/-! ### the parser against the independent grammar reader, on everything the writer prints -/
+
+/-- `C04_tagtype_spec`: `TagType()` of the SNBT text of a well-formed tree is the tag of the tree (spec level: the
+tag is named by the tree, not by a second run of the emitter as in `C04_tagtype_agrees`) -/
+theorem C04_tagtype_spec (fo : FloatOracle) (fm : FmtOracle) (t : Spec.NBT) (hwf : t.WF)
+    (hf : FloatHypT fo fm t) (hd : ndepth t ≤ maxNestingDepth + 1) : tagType fo (wtext fm t) = .ok t.tag :=
+  tagType_wtext fo fm t hwf hf hd
+
+/-- per production: a scalar / string token of the writer, followed by anything that cannot continue a token, is
+read by the grammar reader `Spec.SNBT.readValue` as that value (specified, nothing else consumed) -/
+theorem C04_writer_tokens_scalar (fs : Spec.SNBT.FloatSem) (fm : FmtOracle) (t : Spec.NBT) (w : Bytes)
+    (hw : scalarText fm t = some w) (hf : FloatHyp (semOracle fs) fm t) (k : Bytes) (hk : TokEnd k) (f : Nat) :
+    Spec.SNBT.readValue fs (f + 1) (w ++ k) = some (t, false, k) :=
+  rv_scalar fs fm t w hw hf k hk f
+
+/-- per production: typed arrays `[B;…]`, `[I;…]`, `[L;…]` of any length and element values -/
+theorem C04_writer_tokens_array (fs : Spec.SNBT.FloatSem) (fm : FmtOracle) (t : Spec.NBT)
+    (ha : ∃ w, arrayText t = some w) (k : Bytes) (f : Nat) :
+    Spec.SNBT.readValue fs (f + 1) (wtext fm t ++ k) = some (t, false, k) :=
+  rv_array fs fm t ha k f
+
+/-- per production: a list whose elements are read back is read back (including the `[B…` / `[I…` / `[L…`
+look-ahead that separates a list of bare strings from a typed array, and the homogeneity check) -/
+theorem C04_writer_tokens_list (fs : Spec.SNBT.FloatSem) (fm : FmtOracle) (e : Byte) (xs : List Spec.NBT)
+    (hall : ∀ x ∈ xs, RVt fs fm x ∧ x.tag = e ∧ Head1 (wtext fm x)) : RVt fs fm (.list e xs) :=
+  rv_list fs fm e xs hall
+
+/-- per production: a compound whose values are read back is read back (bare and quoted names, the empty name) -/
+theorem C04_writer_tokens_compound (fs : Spec.SNBT.FloatSem) (fm : FmtOracle) (kvs : List (Bytes × Spec.NBT))
+    (hall : ∀ kv ∈ kvs, RVt fs fm kv.2) : RVt fs fm (.compound kvs) :=
+  rv_compound fs fm kvs hall
+
+/-- **`C04_writer_tokens`**: the independent grammar reader of `Spec/SNBT.lean` reads the text that the writer
+prints for ANY well-formed tree as exactly that tree (empty lists canonical), as a SPECIFIED reading — no nesting
+bound, no `S15` -/
+theorem C04_writer_tokens (fs : Spec.SNBT.FloatSem) (fm : FmtOracle) (t : Spec.NBT) (hwf : t.WF)
+    (hf : FloatHypT (semOracle fs) fm t) : Spec.SNBT.read fs (wtext fm t) = .ok (Spec.SNBT.canon t) :=
+  read_wtext fs fm t hwf hf
+
+/-- **`C04_parse_eq_spec_writer`** — `C04_parse_sound` / `C04_parse_eq_spec` restricted to the image of the
+writer: on the SNBT text of every well-formed tree the state-machine parser (`MarshalNBT`, `TagType`) and the
+recursive-descent grammar reader agree — the reader names a well-formed document `t'`, the parser emits exactly
+`encPayload t'` and reports exactly `t'.tag`. -/
+theorem C04_parse_eq_spec_writer (fs : Spec.SNBT.FloatSem) (fm : FmtOracle) (t : Spec.NBT) (hwf : t.WF)
+    (hf : FloatHypT (semOracle fs) fm t) (hd : ndepth t ≤ maxNestingDepth + 1) :
+    ∃ t', Spec.SNBT.read fs (wtext fm t) = .ok t' ∧
+      marshal (semOracle fs) (wtext fm t) = .ok (Spec.encPayload t') ∧
+      tagType (semOracle fs) (wtext fm t) = .ok t'.tag := by
+  refine ⟨Spec.SNBT.canon t, read_wtext fs fm t hwf hf, marshal_wtext _ fm t hwf hf hd, ?_⟩
+  rw [tagType_wtext _ fm t hwf hf hd]
+  exact congrArg _ (canon_tag t).symm
+
+/-- non-vacuity of the hypotheses of `C04_roundtrip` / `C04_writer_tokens`: a tree with an empty typed list, a
+list of bare strings beginning with `B`, a nested compound with the empty name and a typed array satisfies `WF`,
+`S15`, `FloatHypT` (no floats) and the depth bound -/
+example (fo : FloatOracle) (fm : FmtOracle) :
+    let t : Spec.NBT := .compound [([97], .list 3 []), ([], .list 8 [.string [66], .string [66, 59]]),
+      ([110], .compound [([], .intArray [0xFFFFFFFF#32])])]
+    t.WF ∧ S15 t ∧ FloatHypT fo fm t ∧ ndepth t ≤ maxNestingDepth + 1 := by
+  refine ⟨?_, ?_, ?_, ?_⟩
+  · simp [Spec.NBT.WF, Spec.NBT.WFKvs, Spec.NBT.WFList, Spec.NBT.tag, Spec.NBT.tagEnd, Spec.NBT.tagString]
+  · simp [S15, S15Kvs, S15List]
+  · simp [FloatHypT, FloatHypKvs, FloatHypList]
+  · simp [ndepth, ndepthKvs, ndepthList, maxNestingDepth]
+
 /-
   OPEN (stated at full strength; checked by the driver on every run, not proved):
 
-  C04_roundtrip     : ∀ t, t.WF → (floats of t finite: FloatHyp) → (strings/names < 2^15 bytes) →
-                        unmarshalNBT fm t.tag (encPayload t) = ok (wtext t)  ∧  marshal fo (wtext t) = .ok (encPayload (canon t))
-      -- PROVED above: scalars and strings (`C04_roundtrip_scalar`), typed arrays (`C04_roundtrip_array`), both
-      -- directions; and for the text → binary direction the generalised statement `ValSpec` of DESIGN G.3 with
-      -- its closure under compounds to any depth (`C04_roundtrip_compound`, `C04_roundtrip_toplevel`).
-      -- MISSING: (1) the `ValSpec` closure rule for lists `[v,…]` — the exact evaluation of the three list loops
-      -- `litListLoop` / `listListLoop` / `compListLoop` (same shape as `arrayLoop_spec` / `compLoop_spec`), including
-      -- the scanner's special first-element path for bare strings that begin with `B`, `I` or `L`
-      -- (`stateListOrArray` → `stateListOrArrayT`), and the homogeneity check against `WFList`;
-      -- (2) the function `wtext : NBT → Bytes` and the structural induction that assembles the closure rules into
-      -- one statement over trees; (3) the binary → text direction for compounds and lists (`encode` on
-      -- `encPayload t` prints `wtext t`: an induction over the tree in the `Rd` monad like `walker_array`).
-  C04_writer_tokens : ∀ t, t.WF → … → Spec.SNBT.read fs (wtext t) = .ok (canon t)
   C04_parse_sound   : marshal fo text = .ok bs → ∃ t, t.WF ∧ bs = encPayload t ∧
                         (Spec.SNBT.read fs text = .ok t ∨ Spec.SNBT.read fs text = .unspecified)
   C04_parse_eq_spec : Spec.SNBT.read fs text = .malformed → marshal fo text = .err
-      -- these three relate the state-machine parser to the recursive-descent reader of `Spec/SNBT.lean`; they are
-      -- checked on every run by the three-way comparison (implementation = model = spec reader) in `Driver/C04.lean`.
+      -- for ARBITRARY text.  PROVED above for every text the writer can print (`C04_writer_tokens`,
+      -- `C04_parse_eq_spec_writer`: reader, `MarshalNBT` and `TagType` agree on `wtext t` for every well-formed `t`),
+      -- production by production (`C04_writer_tokens_scalar/_array/_list/_compound`).
+      -- MISSING for arbitrary text: the simulation between the byte-at-a-time state machine (scanner + emitters,
+      -- with white space anywhere, `+` signs, exponents, redundant quotes, the `[B;` look-ahead, lower-case
+      -- suffixes, unspecified corners) and the recursive-descent reader — i.e. a `ValSpec`-style exact evaluation
+      -- for every ACCEPTED token sequence rather than for the writer's canonical one.  The token-level facts
+      -- (`classify_*`, `parseLiteral_*`) and the container loop lemmas proved here are the pieces such a proof
+      -- reuses; the missing part is the generalisation from canonical to arbitrary layouts.  Until then the general
+      -- statements are checked on every run by the three-way comparison (implementation = model = spec reader) in
+      -- `Driver/C04.lean` (corpus + 3 random generators, `unspecified` readings excluded from the comparison).
 -/
 
 end GoMC.Props.C04
